@@ -142,7 +142,10 @@ def parseRows (j : Json) : Except String (List Table.Row) := do
     match f.toList with
     | [s, e, n, ac, g] => do
       pure { src := toStr (← s.getStr?), ev := toStr (← e.getStr?), next := ← optStr n, action := ← optStr ac, guard := ← optStr g }
-    | _ => throw "row: [src, ev, next, action, guard]")
+    | [s, e, n, ac, g, ne] => do
+      -- the event cell is '' / None / none (its spelling stays in `ev`)
+      pure { src := toStr (← s.getStr?), ev := toStr (← e.getStr?), next := ← optStr n, action := ← optStr ac, guard := ← optStr g, noEv := ← ne.getBool? }
+    | _ => throw "row: [src, ev, next, action, guard(, noEv)]")
 
 def jOpt : Option Str → Json
   | some s => jStr s
